@@ -18,6 +18,10 @@ P = 18446744069414584321
 EDGE = [0, 1, 2**32 - 1, 2**32, 2**63, P - 2**32, P - 1]
 
 
+# hint sites other than GlGadgets' four inside the chip, in the whole verifier, are probed with generic alternatives
+FOREIGN = (("goldilocks.(*Chip)",), ("testdata",))
+
+
 def run(ctx):
     ctx.rule = ("gadget x operand tuple x mode; tuples: all 343 edge-class triples (pairs/singletons for binary/unary gadgets) plus "
                 "seeded random operands; programs: TLC-simulated sequences of 6 gadget calls with edge-class and random inputs; "
